@@ -82,11 +82,11 @@ Section More.
   Qed.
 
   Lemma topmono_nested rd : topmono rd ->
-    forall h text lineno inline ho ns h',
-      den_nested env orc rd true h text lineno inline ho = Ok (ns, h', false) ->
-      den_nested env orc rd false h text lineno inline ho = Ok (ns, h', false).
+    forall ho0 h text lineno inline ho ns h',
+      den_nested env orc rd true ho0 h text lineno inline ho = Ok (ns, h', false) ->
+      den_nested env orc rd false ho0 h text lineno inline ho = Ok (ns, h', false).
   Proof.
-    intros Hm h text lineno inline ho ns h' H. unfold den_nested in *.
+    intros Hm ho0 h text lineno inline ho ns h' H. unfold den_nested in *.
     destruct (if inline then o_PI orc (s_env h) text else o_P orc (s_env h) (text ++ nl)).
     apply topmono_fold; assumption.
   Qed.
@@ -114,22 +114,22 @@ Section More.
       destruct (o_include_opts orc (p_optblock p)) as [literal iho].
       destruct literal; [exact H|].
       destruct (mem_str a (o_source orc :: s_incl h)); [exact H|].
-      destruct (den_nested env orc rd true (set_incl (s_incl h ++ [a]) h)
+      destruct (den_nested env orc rd true ho (set_incl (s_incl h ++ [a]) h)
                   (join nl (split_lines file)) (0 + 1) false iho)
         as [[[direct h2] b2]|] eqn:E; [|discriminate].
       simpl in H. assert (b2 = false) by (inversion H; reflexivity). subst b2.
-      rewrite (topmono_nested rd Hm _ _ _ _ _ _ _ E). exact H.
+      rewrite (topmono_nested rd Hm _ _ _ _ _ _ _ _ E). exact H.
     - (* substitution *)
       unfold den_substitution in *.
       destruct (token_line mp) as [position|]; [|discriminate]. simpl in *.
       destruct (o_jinja orc key) as [rendered|]; [|exact H].
       destruct (existsb (fun r => mem_str r (s_subrefs h)) (o_sub_names orc key)); [exact H|].
-      destruct (den_nested env orc rd true
+      destruct (den_nested env orc rd true ho
                   (set_subrefs (add_all (o_sub_names orc key) (s_subrefs h)) h) rendered position
                   (inline && negb (o_is_directive_start orc rendered)) 0)
         as [[[ms h2] b2]|] eqn:E; [|discriminate].
       simpl in H. assert (b2 = false) by (inversion H; reflexivity). subst b2.
-      rewrite (topmono_nested rd Hm _ _ _ _ _ _ _ E). exact H.
+      rewrite (topmono_nested rd Hm _ _ _ _ _ _ _ _ E). exact H.
   Qed.
 
   Lemma topmono_tok f : topmono (den_tok env orc f).
@@ -186,7 +186,7 @@ Section More.
         unfold den_text_at in Hden. unfold den_nested.
         change (set_incl (s_incl (sh0 e0) ++ [a]) (sh0 e0)) with (set_incl [a] (sh0 e0)).
         destruct (o_P orc (s_env (set_incl [a] (sh0 e0))) (join nl (split_lines file) ++ nl)) as [toks e'].
-        change (0 + 1) with 1. rewrite Hden. simpl. rewrite app_nil_r. reflexivity.
+        change (0 + 1) with 1. change (0 + iho) with iho. rewrite Hden. simpl. rewrite app_nil_r. reflexivity.
     Qed.
   End Include.
 
@@ -283,7 +283,7 @@ Section More.
     destruct (o_P orc (s_env (set_subrefs (add_all (o_sub_names orc key) (s_subrefs (sh0 e0))) (sh0 e0)))
                 (rendered ++ nl)) as [toks e'] eqn:EP.
     simpl in EP, Hden. rewrite EP in Hden.
-    change (s_subrefs (sh0 e0)) with (@nil str). rewrite Hden. reflexivity.
+    change (s_subrefs (sh0 e0)) with (@nil str). change (0 + 0) with 0. rewrite Hden. reflexivity.
   Qed.
 
   (* ---- the rest of the document sees the same registries ---- *)
